@@ -294,10 +294,12 @@ type c07Result struct {
 // item per quiescence (the server fully digests each message first); otherwise
 // everything is available at once. gatesFirst: gated steps are released before
 // the input is closed, otherwise after the server has seen the end of input.
-func runC07Session(items []c07Item, cut int, stepwise, gatesFirst bool, closeOutputAt int) *c07Result {
+func runC07Session(items []c07Item, cut int, stepwise, gatesFirst bool, closeOutputAt int, osFileClose bool) *c07Result {
 	res := &c07Result{fixture: rig.NewFixture(), outputOpen: closeOutputAt < 0}
 	c2s := rig.NewPipe("c2s", rig.ModeBuffered, nil)
 	s2c := rig.NewPipe("s2c", rig.ModeBuffered, nil)
+	// a plugin's server runs on os.Stdin / os.Stdout: closing them twice is an error there
+	c2s.OSFileClose, s2c.OSFileClose = osFileClose, osFileClose
 	var all []byte
 	var bounds []int
 	for _, it := range items {
@@ -525,7 +527,12 @@ func runC07(c *wk.Ctx) {
 		run := func(cut int, stepwise, gatesFirst bool, closeOut int) {
 			wit := map[string]any{"script": descr, "script_bytes": total, "cut_at": cut, "stepwise": stepwise, "gates_first": gatesFirst, "close_output_at_action": closeOut}
 			c.Note(fmt.Sprintf("script=%v cut=%d stepwise=%v gatesFirst=%v closeOut=%d", descr, cut, stepwise, gatesFirst, closeOut))
-			res := runC07Session(items, cut, stepwise, gatesFirst, closeOut)
+			osFile := (cut+int(idx))%2 == 0 // alternately: ends that complain about a second Close, as *os.File does
+			wit["stdio_close_semantics"] = map[bool]string{true: "os.File (closing twice is an error)", false: "io.Pipe (closing twice is fine)"}[osFile]
+			res := runC07Session(items, cut, stepwise, gatesFirst, closeOut, osFile)
+			if osFile {
+				c.Count("sessions_with_os_file_close_semantics")
+			}
 			c.Count("sessions")
 			c.Eval(wk.Hash64(fmt.Sprint(descr), fmt.Sprint(cut, stepwise, gatesFirst, closeOut)), len(items) >= 3)
 			c07Judge(c, res, wit)
